@@ -6,6 +6,7 @@ runner, state and position.  Built separately by checks/C12.py (like Peg/Tie.lea
 what the model does, the theorem of that opcode fails and names it.
 -/
 import JanetModel.Gen.PegSkel
+import JanetModel.Gen.Peg
 import JanetModel.Peg.Skel
 
 namespace JanetModel.Peg.TieSkel
@@ -269,5 +270,123 @@ theorem rule_between (E : Env) (k : OK ρ) (n : Nat) (lo hi : Nat) (r : ρ) (s :
       by_cases hlo : c' < lo
       · simp [hlo, g3, g4, g5, opsWord, upd]
       · simp [hlo, g3, g4, g5, opsWord, upd]
+
+/-! #### RULE_TO / RULE_THRU (one case in peg.c, `rule[0]` tells them apart) -/
+
+/-- one iteration of the scanning loop -/
+def ToBody (k : OK ρ) (r : ρ) (isTo : Bool) (body : Loc → St → Except Err Out) : Prop :=
+  ∀ (L : Loc) (s : St) (pos : Nat), L.ptr 0 = some pos →
+    match k r s pos with
+    | .error e => body L s = .error e
+    | .ok (none, s1) => ∃ L1, body L s = .ok (.cont L1 (capLoad s1 (capSave s))) ∧ L1.ptr 0 = some (pos + 1) ∧ L1.cs 0 = L.cs 0
+    | .ok (some p, s1) => ∃ L1, body L s = .ok (.brk L1 (if isTo then capLoad s1 (capSave s) else s1)) ∧ L1.ptr 0 = some pos ∧
+        L1.ptr 1 = some p ∧ L1.cs 0 = L.cs 0
+
+theorem to_loop (k : OK ρ) (hk : KeepsWindow k) (r : ρ) (isTo : Bool) (cs : CapState) (cond : Loc → St → Bool)
+    (body : Loc → St → Except Err Out)
+    (hcond : ∀ L s pos, L.ptr 0 = some pos → cond L s = decide (pos ≤ s.textEnd)) (hbody : ToBody k r isTo body) :
+    ∀ (n f : Nat) (s : St) (pos : Nat) (L : Loc), L.ptr 0 = some pos → n = s.textEnd + 1 - pos → n + 1 ≤ f →
+      (∃ e, Op.toLoop k r isTo cs n s pos = .error e ∧ loopN cond body f L s = .error e) ∨
+      (∃ s' L' pos', Op.toLoop k r isTo cs n s pos = .ok (none, capLoad (up1 s') cs) ∧ loopN cond body f L s = .ok (.cont L' s') ∧
+        L'.ptr 0 = some pos' ∧ s'.textEnd < pos' ∧ L'.cs 0 = L.cs 0) ∨
+      (∃ q s' L' pos', Op.toLoop k r isTo cs n s pos = .ok (some q, up1 s') ∧ loopN cond body f L s = .ok (.cont L' s') ∧
+        L'.ptr 0 = some pos' ∧ pos' ≤ s'.textEnd ∧ L'.cs 0 = L.cs 0 ∧ (if isTo then q = pos' else L'.ptr 1 = some q)) := by
+  intro n
+  induction n with
+  | zero =>
+    intro f s pos L hp hn hf
+    obtain ⟨f', rfl⟩ : ∃ f', f = f' + 1 := ⟨f - 1, by omega⟩
+    have hgt : ¬ pos ≤ s.textEnd := by omega
+    right; left
+    exact ⟨s, L, pos, by simp [Op.toLoop], by simp [loopN, hcond L s pos hp, hgt], hp, by omega, rfl⟩
+  | succ n ih =>
+    intro f s pos L hp hn hf
+    obtain ⟨f', rfl⟩ : ∃ f', f = f' + 1 := ⟨f - 1, by omega⟩
+    have hle : pos ≤ s.textEnd := by omega
+    simp only [Op.toLoop, loopN, hcond L s pos hp, hle, decide_true, if_true]
+    have hb := hbody L s pos hp
+    cases hkr : k r s pos with
+    | error e =>
+      simp only [hkr] at hb
+      left; exact ⟨e, by simp [bind, Except.bind], by simp [hb, bind, Except.bind]⟩
+    | ok x =>
+      obtain ⟨res, s1⟩ := x
+      have hw : s1.textEnd = s.textEnd := hk r s pos res s1 hkr
+      cases res with
+      | none =>
+        simp only [hkr] at hb
+        obtain ⟨L1, h1, h2, h3⟩ := hb
+        have hw2 : (capLoad s1 (capSave s)).textEnd = s.textEnd := by simp [capLoad, hw]
+        rcases ih f' (capLoad s1 (capSave s)) (pos + 1) L1 h2 (by rw [hw2]; omega) (by omega) with
+          ⟨e, g1, g2⟩ | ⟨s', L', pos', g1, g2, g3, g4, g5⟩ | ⟨q, s', L', pos', g1, g2, g3, g4, g5, g6⟩
+        · left; exact ⟨e, by simp [bind, Except.bind, g1], by simp [h1, bind, Except.bind, g2]⟩
+        · right; left
+          exact ⟨s', L', pos', by simp [bind, Except.bind, g1], by simp [h1, bind, Except.bind, g2], g3, g4, g5.trans h3⟩
+        · right; right
+          exact ⟨q, s', L', pos', by simp [bind, Except.bind, g1], by simp [h1, bind, Except.bind, g2], g3, g4, g5.trans h3, g6⟩
+      | some p =>
+        simp only [hkr] at hb
+        obtain ⟨L1, h1, h2, h3, h4⟩ := hb
+        right; right
+        cases isTo with
+        | true =>
+          refine ⟨pos, capLoad s1 (capSave s), L1, pos, by simp [bind, Except.bind], by simp [h1, bind, Except.bind], h2,
+            by simp [capLoad, hw, hle], h4, by simp⟩
+        | false =>
+          refine ⟨p, s1, L1, pos, by simp [bind, Except.bind], by simp [h1, bind, Except.bind], h2, by rw [hw]; exact hle, h4,
+            by simpa using h3⟩
+
+theorem to_body (E : Env) (k : OK ρ) (r : ρ) (isTo : Bool) (fuel : Nat) :
+    ToBody k r isTo (fun L s => execL E k ⟨opsRule [(1, r)], opsWord [(0, if isTo then Gen.Peg.RULE_TO else Gen.Peg.RULE_THRU)],
+      fun _ => .nil⟩ fuel Gen.PegSkel.RULE_TO_body0 L s) := by
+  intro L s pos hp
+  simp only [Gen.PegSkel.RULE_TO_body0, execL, execStmt, evalCond]
+  cases hk : k r s pos with
+  | error e => simp [hk, hp, opsRule, bind, Except.bind]
+  | ok x =>
+    obtain ⟨res, s1⟩ := x
+    cases res with
+    | none => simp [hk, hp, opsRule, opsWord, bind, Except.bind, upd]
+    | some p => cases isTo <;> simp [hk, hp, opsRule, opsWord, bind, Except.bind, upd]
+
+/-- RULE_TO / RULE_THRU: every position of the window is tried with its own cap_save; `to` drops the captures of the match and
+    ends where it started, `thru` keeps them and ends after it; nothing found rolls back to the state on entry.
+    `fuel` is the Lean fuel of the IR loop (one unit per iteration and one for the exit test). -/
+theorem rule_to_thru (E : Env) (k : OK ρ) (hk : KeepsWindow k) (n fuel : Nat) (isTo : Bool) (r : ρ) (s : St) (pos : Nat)
+    (hf : s.textEnd + 1 - pos + 1 ≤ fuel) :
+    runL E k ⟨opsRule [(1, r)], opsWord [(0, if isTo then Gen.Peg.RULE_TO else Gen.Peg.RULE_THRU)], fun _ => .nil⟩ fuel
+        Gen.PegSkel.RULE_TO s pos =
+      Op.step E k n (if isTo then .to r else .thru r) s pos := by
+  have hstep : Op.step E k n (if isTo then Instr.to r else Instr.thru r) s pos =
+      (do let s0 ← down1 s; Op.toLoop k r isTo (capSave s) (s.textEnd + 1 - pos) s0 pos) := by
+    cases isTo <;> simp [Op.step]
+  rw [hstep]
+  simp only [runL, Gen.PegSkel.RULE_TO, execL, execStmt, Loc.init]
+  cases hd : down1 s with
+  | error e => simp [hd, bind, Except.bind]
+  | ok s0 =>
+    have hs0 : s0.textEnd = s.textEnd := by
+      unfold down1 at hd; split at hd <;> simp at hd; subst hd; rfl
+    simp only [hd, bind, Except.bind]
+    rcases to_loop k hk r isTo (capSave s)
+        (fun L s => evalCond E ⟨opsRule [(1, r)], opsWord [(0, if isTo then Gen.Peg.RULE_TO else Gen.Peg.RULE_THRU)], fun _ => .nil⟩ L s (.ptrLeEnd 0)) _
+        (fun L s pos hp => by simp [evalCond, hp]) (to_body E k r isTo fuel) (s.textEnd + 1 - pos) fuel s0 pos
+        { ptr := upd (fun x => if x = 0 then some pos else none) 1 none, cs := upd (fun _ => ⟨0, 0, 0⟩) 0 (capSave s),
+          val := fun _ => .nil, num := fun _ => 0, oldmode := false }
+        (by simp [upd]) (by rw [hs0]) (by omega) with
+      ⟨e, g1, g2⟩ | ⟨s', L', pos', g1, g2, g3, g4, g5⟩ | ⟨q, s', L', pos', g1, g2, g3, g4, g5, g6⟩
+    · rw [g2]; simp [g1]
+    · rw [g2]
+      have hgt : pos' > (up1 s').textEnd := by simpa [up1] using g4
+      simp [g1, Gen.PegSkel.RULE_TO_rest0, execL, execStmt, evalCond, g3, g5, hgt, upd, bind, Except.bind]
+    · rw [g2]
+      have hle : ¬ pos' > (up1 s').textEnd := by simpa [up1] using g4
+      cases isTo with
+      | true =>
+        simp only [if_true] at g6; subst g6
+        simp [g1, Gen.PegSkel.RULE_TO_rest0, execL, execStmt, evalCond, g3, hle, opsWord, bind, Except.bind]
+      | false =>
+        simp only [Bool.false_eq_true, if_false] at g6
+        simp [g1, Gen.PegSkel.RULE_TO_rest0, execL, execStmt, evalCond, g3, g6, hle, opsWord, bind, Except.bind]
 
 end JanetModel.Peg.TieSkel
